@@ -483,6 +483,9 @@ fn check(prop: &str, tier: &str) -> i32 {
                     for scn in ["S2", "S3", "S3g", "S8g"] {
                         plans.push(Plan { scn, cache: 0, bound: 2, reduced: true, cap: 1_500_000 });
                     }
+                    // the churning writer against an ungated reader: preemptions inside begin_read()
+                    plans.push(Plan { scn: "S8", cache: 0, bound: 1, reduced: true, cap: 100_000 });
+                    plans.push(Plan { scn: "S8", cache: 0, bound: 2, reduced: true, cap: 1_500_000 });
                     plans.push(Plan { scn: "S2", cache: 2, bound: 1, reduced: true, cap: 200_000 });
                     // the reduction cross-checked against the unreduced search
                     plans.push(Plan { scn: "S2", cache: 0, bound: 1, reduced: false, cap: 400_000 });
